@@ -46,7 +46,10 @@ func CurveOfKey(k *ecdh.PrivateKey) uint16 {
 
 // ViewTerm: (mkView suites curves shares alpn sid psk ccalgs ccext vmin vmax ech ecdhe mlkem sv session).
 // No ECH configured, no PSK session (the harness never offers one through these runs).
-func ViewTerm(r *Result) string {
+func ViewTerm(r *Result) string { return ViewTermSess(r, 0) }
+
+// ViewTermSess: as ViewTerm, with cv_session = cipher suite of the TLS 1.3 PSK session the hello offers (0 = none).
+func ViewTermSess(r *Result, sessionSuite uint16) string {
 	v := r.View
 	var ecdhe uint16
 	mlkem := false
@@ -54,10 +57,10 @@ func ViewTerm(r *Result) string {
 		ecdhe = CurveOfKey(ks.Ecdhe)
 		mlkem = ks.Mlkem != nil
 	}
-	return fmt.Sprintf("(mkView %s %s %s %s %s %d %s %s %d %d false %d %s %s 0)",
+	return fmt.Sprintf("(mkView %s %s %s %s %s %d %s %s %d %d false %d %s %s %d)",
 		vh.U16s(v.CipherSuites), vh.U16s(v.SupportedCurves), vh.U16s(v.KeyShareGroups), strsTerm(v.ALPN), vh.Bytes(v.SessionID),
 		v.PSKIdentities, vh.U16s(v.CertCompressionAlgs), vh.Bool(r.HasCompressCertExt), v.ConfigMinVersion, v.ConfigMaxVersion,
-		ecdhe, vh.Bool(mlkem), vh.U16s(v.SupportedVersions))
+		ecdhe, vh.Bool(mlkem), vh.U16s(v.SupportedVersions), sessionSuite)
 }
 
 // WireTerm: (mkWire legacy suites comps groups shares alpn sid psk ccalgs has_sv sv).
@@ -150,8 +153,12 @@ func FlightTerm(r *Result, s *tls.VerifServerScript, alpnPrefs []string) (string
 		hrr := "None"
 		shSent := countSent(tr.Sent, 2) >= 1
 		if tr.SentHRR {
-			hrr = fmt.Sprintf("(Some (mkHello %d %d 0 %s %d %d 0 %d %s None []))", hrrVers(tr, s), hrrSV(tr, s), vh.Bytes(sid), tr.HRRSuite,
-				s.CompressionMethod, uint16(s.HRRGroup), vh.Bool(len(s.HRRCookie) > 0))
+			hsid, hcomp, hv, hsv := sid, s.CompressionMethod, hrrVers(tr, s), hrrSV(tr, s)
+			if s.OverridesAfterHRROnly {
+				hsid, hcomp, hv, hsv = w.SessionID, 0, tls.VersionTLS12, tls.VersionTLS13
+			}
+			hrr = fmt.Sprintf("(Some (mkHello %d %d 0 %s %d %d 0 %d %s None []))", hv, hsv, vh.Bytes(hsid), tr.HRRSuite,
+				hcomp, uint16(s.HRRGroup), vh.Bool(len(s.HRRCookie) > 0))
 			shSent = countSent(tr.Sent, 2) >= 2
 		}
 		sh := "(mkHello 771 0 0 [] 0 0 0 0 false None [])" // never sent: the client stopped at the HRR
